@@ -87,6 +87,23 @@ class OneRequest(Harness):
         scen = self.scenario()
         T, R = scen.T, scen.retries
         n = len(obs.tx)
+        if self.prop == "C03":
+            # wire view of C03: every transmission (first or retransmission, after connect faults too) is a canonical
+            # frame that an independent decoder parses back to the intended operation; Modbus/TCP transaction ids are
+            # non-zero and change with every transmission
+            from .c03 import decode_request
+            want = ("aa55", 0x01, 0x06, b"") if scen.aa55 else ("read", 0xF7, scen.register, scen.count)
+            prev = self.scen_params.get("tx_start", 0)
+            for i, (_, d, _) in enumerate(obs.tx):
+                dec = decode_request(bytes(d))
+                if dec is None or dec["op"] != want:
+                    fail("a transmitted frame does not decode to the intended operation", f"tx {i}: {bytes(d).hex()}")
+                if scen.tcp:
+                    if dec["tx"] == 0 or dec["tx"] == prev:
+                        fail("Modbus/TCP transaction id is zero or did not change with the transmission",
+                             f"tx {i}: id {dec['tx']} after {prev}")
+                    prev = dec["tx"]
+            return
         if n > R + 1:
             fail("more than retries+1 transmissions", f"{n} transmissions")
         if obs.abort is not None and "connection attempts" in obs.abort:
